@@ -4,6 +4,9 @@ import json, os
 V = "/verif"
 R_NOTE = "Trusts the Go reference model to state the property (it is ~100 lines written from the statement, not from the implementation) and the instrumented node lambdas to report executions faithfully; native goroutine scheduling is not controlled here (completion-order independence is C03's business); bounds as stated in the evidence rule."
 checks = {
+ "C02": dict(engine="R", technique="explicit enumeration of all acyclic graph/workflow programs and all branch-outcome combinations within bounds against a readiness reference model; every model trace replayed on the implementation",
+   text="All acyclic shapes up to renaming within the node/arc bounds, as all-predecessor Graph and as Workflow with every assignment of dependency kinds (normal, control-only, data-only), with single/multi branches, pass-through and nested variants, under all combinations of branch outcomes, are replayed with Invoke and Stream; executed set, at-most-once, per-node inputs and result must equal the model's. Right level: readiness bookkeeping is deterministic logic over a small finite state space.",
+   note=R_NOTE, design="3/C02"),
  "C01": dict(engine="R", technique="explicit enumeration of all graph programs and all branch-outcome sequences within bounds against a Pregel reference model; every model trace replayed on the implementation (trace conformance)",
    text="All any-predecessor graphs up to renaming within the node/arc bounds (cycles, self-loops, single and multi branches, sub-graphs, pass-throughs, chains), all step limits, and for each all sequences of branch outcomes (DFS over the model's decision points) are replayed on the real implementation with Invoke and Stream; result, error class and the per-superstep execution log must equal the model's. Right level: the run loop is deterministic sequential logic whose state space over a small alphabet can be enumerated completely.",
    note=R_NOTE, design="3/C01"),
